@@ -76,28 +76,54 @@ def rule_b(ctx):
         ctx.ob("handler-guarded-by-flag|%s" % b.name, ok, "the input handler of a keyed event is called only if the key is not cancelled", [s])
         ctx.ob("check-inside-model|%s" % b.name, b.kind == "coroutine" and b.name.count("{closure#") >= 3,
                "the flag is tested inside the future executed by the target model (last moment), not when the event is sent", [s])
-    # generators of keyed model events call send_keyed_event with their key argument
+    # generators of keyed model events call send_keyed_event with their key argument -- wherever the keyed action is constructed
     n = 0
     for fb in P.all_bodies():
-        if fb.impl_self != "simulation::scheduler::GlobalScheduler":
+        if "::tests" in fb.name:
             continue
         ctors = [s for s in fb.calls(r"simulation::scheduler::Keyed(Once|Periodic)Action::new$")]
         for ct in ctors:
-            n += 1
             go = fb.origins(ct.args()[0], ct)
+            kind = None
             ok = False
             sites = [ct]
             for o in go:
                 if o[0] == "agg" and o[3]:
                     gb = P.body(o[3])
-                    if gb is not None:
-                        for s in gb.calls("simulation::scheduler::send_keyed_event$"):
+                    if gb is None:
+                        continue
+                    fam_g = P.family(gb)
+                    for g in fam_g:
+                        for s in g.calls(r"simulation::scheduler::process_event$"):
                             sites.append(s)
-                            if gb.origins(s.args()[0], s) == frozenset([("arg", 2)]):
+                            kind = "unkeyed-direct"
+                        for s in g.calls(r"simulation::scheduler::send_keyed_event$"):
+                            sites.append(s)
+                            if kind is None:
+                                kind = "keyed-direct"
+                            if g.origins(s.args()[0], s) == frozenset([("arg", 2)]):
                                 ok = True
-            ctx.ob("keyed-generator-checks-key|%s" % fb.name, ok,
+                        if kind is None and any(True for _ in g.calls(r"ports::source::broadcaster::\w+Broadcaster::broadcast$")):
+                            kind = "source-broadcast"
+            if kind is None and any(True for _ in fb.calls(r"ports::source::broadcaster::\w+Broadcaster::broadcast$")):
+                kind = "source-broadcast"
+            if kind is None and go and all(o[0] != "agg" for o in go) and fb.name.endswith("ActionInner>::next"):
+                # the action re-creating itself for the next occurrence with its own generator: covered by C10.b (next preserves generator and key)
+                continue
+            if kind == "source-broadcast":
+                # an EventSource action: its events reach model inputs through connections, not "scheduled on a model input"
+                continue
+            n += 1
+            ctx.ob("keyed-generator-checks-key|%s" % fb.name, ok and kind == "keyed-direct",
                    "the generator of a keyed model event must build its future with send_keyed_event(key, ..) so that the flag is "
-                   "re-checked inside the model", sites)
+                   "re-checked inside the model (a generator that sends with the un-keyed process_event, or in an unknown way, executes "
+                   "an event cancelled at the last moment)", sites)
+    # the public keyed scheduling methods reach those generators
+    for fn_rx, floor in ((r"GlobalScheduler::schedule_keyed_event_from$", 2), (r"GlobalScheduler::schedule_keyed_periodic_event_from$", 2)):
+        cs = [c for c in P.callers_of(fn_rx) if "::tests" not in c[0].name]
+        ctx.ob("keyed-entry-points|%s" % fn_rx.split("::")[-1].rstrip("$"), len(cs) >= floor,
+               "Scheduler and Context keyed scheduling methods go through the key-checking scheduling function (found %d callers)" % len(cs),
+               [c[1] for c in cs])
     ctx.ob("floor|keyed-generators", n >= 2, "expected 2 keyed scheduling functions (found %d)" % n)
 
 
